@@ -300,6 +300,54 @@ func TestVerifC18Callback(t *testing.T) {
 		}
 		var sessRuns []string // the scenario as a case for the session model: c:<events sent> with a callback, p:<events sent> without
 		baseTotal := 0
+		// a plain run between or after the runs with a callback: the project's own listener is the one the build reports to
+		// again, and it receives the build's stream (per label what the reference project's listener receives)
+		plainRun := func(target string, final bool) bool {
+			rec.mu.Lock()
+			rec.evs = nil
+			rec.mu.Unlock()
+			l, _ := label.Parse(target)
+			refProj.Run(l, &RunOptions{Always: true})
+			rec.mu.Lock()
+			ref := append([]cbEvent(nil), rec.evs...)
+			rec.mu.Unlock()
+			done := make(chan error, 1)
+			go func() {
+				_, err := starlark.ExecFile(thread, "repl.dawn", fmt.Sprintf("run(%q, always=True)\n", target), pre)
+				done <- err
+			}()
+			select {
+			case <-done:
+				base.mu.Lock()
+				got := append([]cbEvent(nil), base.evs...)
+				base.evs = nil
+				base.mu.Unlock()
+				nruns++
+				events += len(got)
+				sessRuns = append(sessRuns, "p:"+strconv.Itoa(len(ref)))
+				baseTotal += len(got)
+				if final {
+					fmt.Fprintf(out, "session\t%s\t%d\t%s\n", strings.Join(sessRuns, ","), baseTotal, scJSON)
+				}
+				gm, gl := cbByLabel(got)
+				rm, rl := cbByLabel(ref)
+				if strings.Join(gl, " ") != strings.Join(rl, " ") {
+					oracle("plain run of %s between or after the runs with a callback: the project's listener has events for %v, the reference project's listener for %v", target, gl, rl)
+				}
+				for _, l := range rl {
+					a, _ := json.Marshal(gm[l])
+					b, _ := json.Marshal(rm[l])
+					if gm[l] != nil && string(a) != string(b) {
+						oracle("plain run of %s between or after the runs with a callback: %s received %s, the reference project's listener receives %s", target, l, a, b)
+					}
+				}
+			case <-time.After(20 * time.Second):
+				oracle("plain run of %s between or after the runs with a callback did not return within 20 s", target)
+				hangs++
+				return false
+			}
+			return true
+		}
 		for ri, run := range sc.Runs {
 			// reference
 			rec.mu.Lock()
@@ -391,51 +439,11 @@ func TestVerifC18Callback(t *testing.T) {
 					oracle("run %d (%+v): %s received %s, a plain Events implementation receives %s", ri, run, l, a, b)
 				}
 			}
-		}
-		{
-			// after the runs with a callback, one plain run: the project's own listener is the one the build reports to again,
-			// and it receives the build's stream (per label what the reference project's listener receives)
-			last := sc.Runs[len(sc.Runs)-1]
-			rec.mu.Lock()
-			rec.evs = nil
-			rec.mu.Unlock()
-			l, _ := label.Parse(last.Target)
-			refProj.Run(l, &RunOptions{Always: true})
-			rec.mu.Lock()
-			ref := append([]cbEvent(nil), rec.evs...)
-			rec.mu.Unlock()
-			done := make(chan error, 1)
-			go func() {
-				_, err := starlark.ExecFile(thread, "repl.dawn", fmt.Sprintf("run(%q, always=True)\n", last.Target), pre)
-				done <- err
-			}()
-			select {
-			case <-done:
-				base.mu.Lock()
-				got := append([]cbEvent(nil), base.evs...)
-				base.mu.Unlock()
-				nruns++
-				events += len(got)
-				sessRuns = append(sessRuns, "p:"+strconv.Itoa(len(ref)))
-				baseTotal += len(got)
-				fmt.Fprintf(out, "session\t%s\t%d\t%s\n", strings.Join(sessRuns, ","), baseTotal, scJSON)
-				gm, gl := cbByLabel(got)
-				rm, rl := cbByLabel(ref)
-				if strings.Join(gl, " ") != strings.Join(rl, " ") {
-					oracle("plain run of %s after the runs with a callback: the project's listener has events for %v, the reference project's listener for %v", last.Target, gl, rl)
-				}
-				for _, l := range rl {
-					a, _ := json.Marshal(gm[l])
-					b, _ := json.Marshal(rm[l])
-					if gm[l] != nil && string(a) != string(b) {
-						oracle("plain run of %s after the runs with a callback: %s received %s, the reference project's listener receives %s", last.Target, l, a, b)
-					}
-				}
-			case <-time.After(20 * time.Second):
-				oracle("plain run of %s after the runs with a callback did not return within 20 s", last.Target)
-				hangs++
+			if ri == 0 && sc.Style%2 == 0 && len(sc.Runs) > 1 && !plainRun(run.Target, false) {
+				goto nextScenario
 			}
 		}
+		plainRun(sc.Runs[len(sc.Runs)-1].Target, true)
 	nextScenario:
 		info, _ := json.Marshal(map[string]any{"runs": nruns, "events": events, "style": sc.Style})
 		fmt.Fprintf(out, "case\t%s/%d\t%d\t%s\n", sc.Name, sc.Style, time.Since(start).Milliseconds(), info)
